@@ -38,10 +38,23 @@ AbsD(x) == IF x = -H THEN H - 1 ELSE IF x < 0 THEN -x ELSE x
 
 (***************************************************************************)
 (* Configuration: [nref, npeer, ri4, pi4, cutoff, interval, timeout, drift]*)
+(* cutoff, interval and timeout are time.Durations: W-bit words, ANY of    *)
+(* them (the whole range -H .. H-1 is configurable; nothing but Run's      *)
+(* prologue stands between a configuration file and the loop).  The        *)
+(* prologue is transcribed with the machine's arithmetic: `/` truncates    *)
+(* towards zero (MP!TDiv2), `+ - *` on Durations wrap (MP!Wrap).  The form *)
+(* the code uses, timeout > interval/2, contains no operation that can     *)
+(* wrap; the statement's "timeout above half the interval" is read over    *)
+(* the integers (StatedInadmissible: 2*timeout > interval, no word).       *)
 (***************************************************************************)
 DriftOf(c) == c.drift * c.interval            \* clk.Drift(cfg.SyncInterval)
 RefCap4(c)  == c.ri4 * DriftOf(c)             \* 4 x refClkMaxCorr
 PeerCap4(c) == c.pi4 * DriftOf(c)             \* 4 x peerClkMaxCorr
+
+DurationsAreWords(c) == c.cutoff \in MP!Word /\ c.interval \in MP!Word /\ c.timeout \in MP!Word
+
+\* cfg.SyncTimeout < 0 || cfg.SyncTimeout > cfg.SyncInterval/2
+TimeoutPanics(c) == c.timeout < 0 \/ c.timeout > MP!TDiv2(c.interval)
 
 \* Run's prologue, condition by condition (a TRUE disjunct is a panic)
 Panics(c) ==
@@ -49,17 +62,29 @@ Panics(c) ==
   \/ c.pi4 <= 4                                   \* PeerClockImpact <= 1.0
   \/ c.pi4 - 4 <= c.ri4                           \* PeerClockImpact-1.0 <= ReferenceClockImpact
   \/ c.interval <= 0                              \* SyncInterval <= 0
-  \/ c.timeout < 0 \/ c.timeout > c.interval \div 2   \* (interval > 0 here: / truncates = \div)
+  \/ TimeoutPanics(c)
   \/ RefCap4(c) <= 0                              \* "unexpected system clock behavior"
   \/ PeerCap4(c) <= 0
 Admissible(c) == ~Panics(c)
 
-\* what the property statement lists as voiding the bound
+\* what the property statement lists as voiding the bound (over the integers)
 StatedInadmissible(c) ==
   \/ c.ri4 <= 4 \/ c.pi4 <= 4
   \/ c.pi4 - c.ri4 <= 4
   \/ c.interval <= 0
   \/ 2 * c.timeout > c.interval
+
+\* Facts about the timeout test over the WHOLE word range (checked as ASSUMEs
+\* of the model: every pair of words).  The truncating form is the statement;
+\* a form that doubles the timeout in the machine word is not: it differs
+\* exactly on the upper half of the range (2*t wraps to a negative number).
+HalfFormIsStatement ==
+  \A i \in MP!Word : \A t \in MP!Word :
+     (i > 0 /\ t >= 0) => ((t > MP!TDiv2(i)) <=> (2 * t > i))
+DoubledFormDiffers(i, t) == (MP!Wrap(2 * t) > i) # (2 * t > i)
+DoubledFormWrapsOnUpperHalf ==
+  \A i \in MP!Word : \A t \in MP!Word :
+     (i > 0 /\ t >= 0) => (DoubledFormDiffers(i, t) <=> t >= H \div 2)
 
 (***************************************************************************)
 (* One loop body, as pure operators.                                       *)
